@@ -43,7 +43,7 @@ def agree(R, ctx):
                 R.ob(rid, "%s|%s|guarded" % (proc.split("::")[-1], ti.split("::")[-1]), ok, ctx.where(fn, asg.get("ln")),
                      "the rewrite of the node is %s" % ("guarded by is_identifier_used" if ok else
                                                         "NOT guarded by is_identifier_used: an occurrence that refers to a local/parameter of the same name is rewritten too"))
-    R.require(rid, "floor:assignments", n >= 5, "", "%d node rewrites checked (floor 5)" % n)
+    R.require(rid, "floor:assignments", n >= 3, "", "%d node rewrites checked (floor 3)" % n)
 
 
 def matchers(R, ctx):
@@ -116,7 +116,7 @@ def args(R, ctx):
                     if c.get("k") == "Call" and c.get("fname") == "preserve_arguments_side_effects":
                         srcs = [y.get("fname") for y in fa.source_calls(c["args"][1])]
                         R.ob(rid, "%s|own-arguments" % ti.split("::")[-1], "get_arguments" in srcs, ctx.where(fn, c.get("ln")), "argument list comes from call.get_arguments(): %s" % ("get_arguments" in srcs))
-    R.require(rid, "floor", n >= 2, "", "%d preserve branches" % n)
+    R.require(rid, "floor", n >= 1, "", "%d preserve branches" % n)
 
 
 def keep(R, ctx):
@@ -149,7 +149,7 @@ def keep(R, ctx):
             ok = bool(clo) and any(h.get("fname") == "has_side_effects" for h in thir.walk(clo[0]["body"]["body"]) if h.get("k") == "Call") and \
                 not any(h.get("k") == "Unary" and h.get("op") == "Not" for h in thir.walk(clo[0]["body"]["body"]))
             R.ob(rid, "filter@%d" % n, ok, ctx.where(fn, c.get("ln")), "filter predicate is has_side_effects: %s" % ok)
-    R.require(rid, "floor", n >= 4, ctx.where(fn), "%d keep sites (floor 4)" % n)
+    R.require(rid, "floor", n >= 3, ctx.where(fn), "%d keep sites (floor 3)" % n)
 
 
 def tail_only(R, ctx, rid, paths):
